@@ -1254,10 +1254,11 @@ func SelectExpr(query *Query, current Map, expr *sqlparser.SelectExprs, opts ...
 					if _, isCte := value.(CteEvaluation); isCte {
 						continue
 					}
-					query.postProcessors = append(query.postProcessors, func() error {
-						delete(data, "<-")
-						return nil
-					})
+					// nor is the backward-navigation entry a subquery leaves on the row while the query runs:
+					// it points back at the document, and a row carrying it cannot be printed or compared
+					if key == "<-" {
+						continue
+					}
 					data[key] = value
 				}
 			}
